@@ -11,6 +11,12 @@ import (
 )
 
 func emitOptionsProbes(tw *traceWriter, tid int, t tableCase, routers []string, universe []string) {
+	// (a container filter that rewrites the URL - flavour 3 - sits in front of the OPTIONS filter, which would then be asked
+	// about the rewritten URL: these probes use the pass-through filter instead)
+	if filterFlavour == 3 {
+		filterFlavour = 1
+		defer func() { filterFlavour = 3 }()
+	}
 	if len(universe) == 0 {
 		universe = []string{"GET", "POST", "PUT", "DELETE", "PATCH", "HEAD", "OPTIONS"}
 	}
@@ -145,6 +151,10 @@ func emitOptionsProbes(tw *traceWriter, tid int, t tableCase, routers []string, 
 
 // C14: the OPTIONS filter is asked about p and about p/ (same Allow header)
 func emitSlashOptionProbes(tw *traceWriter, tid int, t tableCase, routers []string) {
+	if filterFlavour == 3 {
+		filterFlavour = 1
+		defer func() { filterFlavour = 3 }()
+	}
 	seen := map[string]bool{}
 	for _, router := range routers {
 		var cell *obsCell
